@@ -458,3 +458,89 @@ func H_C09_topoSort(n int, fixedOrder int) {
 		verifAssert(c.Id == first[k], "C09/C10: the order does not depend on map iteration order")
 	}
 }
+
+// ---- C09: comments on calls, with modifiers in both syntaxes ----
+
+func c09CountSub(s, sub string) int {
+	n := 0
+	for i := 0; i+len(sub) <= len(s); i++ {
+		if s[i:i+len(sub)] == sub {
+			n++
+		}
+	}
+	return n
+}
+
+// c09CountMod counts "<name> = true," allowing the formatter's alignment padding.
+func c09CountMod(s, name string) int {
+	n := 0
+	for i := 0; i+len(name) <= len(s); i++ {
+		if s[i:i+len(name)] != name {
+			continue
+		}
+		j := i + len(name)
+		for j < len(s) && s[j] == ' ' {
+			j++
+		}
+		if j+7 <= len(s) && s[j:j+7] == "= true," {
+			n++
+		}
+	}
+	return n
+}
+
+// H_C09_callComment(mods, legacy, n): a pipeline whose single call carries a
+// comment line of n arbitrary bytes and the modifier subset `mods` (bit 0
+// local, 1 preflight, 2 volatile), written as legacy prefix keywords
+// (legacy = 1) or in a using block (legacy = 0).
+//
+//	C09: formatting keeps the comment exactly once, keeps every modifier, and is
+//	     idempotent (formatting the formatted text changes nothing).
+func H_C09_callComment(mods, legacy, n int) {
+	c := verifBytes("comment", n)
+	for i := range c {
+		// a comment runs to the end of the line; keep it printable so that it
+		// cannot be mistaken for leading space by the test's own counting
+		verifAssume(verifAll(c[i] != '\n', c[i] != '\r', c[i] >= 0x21, c[i] < 0x7f))
+	}
+	marker := "#Q" + string(c) + "Q"
+	names := []string{"local", "preflight", "volatile"}
+	call := "    " + marker + "\n    call "
+	using := ""
+	for b, name := range names {
+		if mods&(1<<uint(b)) != 0 {
+			if legacy != 0 {
+				call += name + " "
+			} else {
+				using += "        " + name + " = true,\n"
+			}
+		}
+	}
+	call += "FOO(\n        x = self.x,\n    )"
+	if using != "" {
+		call += " using (\n" + using + "    )"
+	}
+	src := "stage FOO(\n    in  int x,\n    out int y,\n    src comp \"bin\",\n)\n\npipeline P(\n    in  int x,\n    out int y,\n)\n{\n" +
+		call + "\n\n    return (\n        y = FOO.y,\n    )\n}\n"
+	var parser Parser
+	ast, err := parser.UncheckedParse([]byte(src), "/m/c.mro")
+	if err != nil {
+		// (preflight calls may not have outputs bound ... only the compiler
+		// checks that; the grammar accepts every subset)
+		verifAssert(false, "C09: the fixture text parses")
+		return
+	}
+	f1 := ast.format(false)
+	verifCover("call with comment formatted")
+	verifAssert(c09CountSub(f1, marker) == 1, "C09: a comment on a call is kept exactly once by the formatter")
+	for b, name := range names {
+		if mods&(1<<uint(b)) != 0 {
+			verifAssert(c09CountMod(f1, name) == 1, "C09: every call modifier survives formatting, in either syntax")
+		}
+	}
+	ast2, err := parser.UncheckedParse([]byte(f1), "/m/c.mro")
+	verifAssert(err == nil, "C09: the formatted text parses")
+	if err == nil {
+		verifAssert(ast2.format(false) == f1, "C09: formatting is idempotent on a commented call with modifiers")
+	}
+}
